@@ -2,7 +2,7 @@ SPECIFICATION FairSpec
 CONSTANTS
   MaxClocks = 2
   Rounds = 2
-  DVals = {1, 90, 7200, 259200}
+  DVals = {1, 90, 259200}
   Overlap = FALSE
   Hist = FALSE
   Fault = "none"
